@@ -24,6 +24,8 @@ pub fn predicate(name: &str, case: &Case, v: &Violation) -> bool {
         "zero_filled_sector" => {
             case.corruptions.len() == 1 && case.corruptions[0].kind == "zero512"
         }
+        // The only crash point of the case loses a page in the middle of un-synced data.
+        "unsynced_page_hole" => case.crash_points.len() == 1 && case.crash_points[0].hole,
         // The only corruption of the case replaces a file by a same-sized sibling.
         "sibling_file_content" => {
             case.corruptions.len() == 1 && case.corruptions[0].kind == "sibling"
